@@ -165,7 +165,7 @@ async def run_program(loop, src, cluster, cfg, program_len, res):
         m.pos = 0 if cfg.get("policy", "earliest") == "earliest" else m.end
     cfg["faults"].enabled = True
     seek_targets = cfg["seek_targets"]
-    ops = ["getone", "getmany", "getmany1", "seek", "pause", "resume", "position"]
+    ops = ["getone", "getmany", "getmany1", "seek", "pause", "resume", "position"] + list(cfg.get("race_ops", ()))
     trace = []
     for step in range(program_len):
         op = ops[src.choice(f"op{step}", len(ops))]
@@ -206,6 +206,52 @@ async def run_program(loop, src, cluster, cfg, program_len, res):
             p = await consumer.position(TP0)
             trace.append(("seek", o, p))
             src.check(p == o, "position() differs from the sought offset right after seek()", sought=o, position=p)
+        elif op in ("race_seek", "race_pause", "race_oor_seek"):
+            # a second task acts while a getone()/getmany() of the first is blocked on an in-flight fetch
+            if op == "race_oor_seek":
+                # fetch for an out-of-range position in flight, then a seek to a valid offset
+                far = m.end + 50
+                consumer.seek(TP0, far)
+                m.pos, m.last_returned = far, None
+            else:
+                o0 = seek_targets[src.choice(f"rs_from{step}", len(seek_targets))]
+                consumer.seek(TP0, o0)  # drops buffered data: the next hand-out needs a fetch
+                m.pos, m.last_returned = o0, None
+            blocked = asyncio.ensure_future(consumer.getmany(timeout_ms=1500, max_records=1) if op != "race_seek"
+                                            else consumer.getone())
+            delay = [0.0, 0.001, 0.002, 0.003, 0.004, 0.006][src.choice(f"race_delay{step}", 6)]
+            await asyncio.sleep(delay)
+            if op == "race_pause":
+                done_before = blocked.done()
+                consumer.pause(TP0)
+                m.paused = True
+                d = await blocked
+                got = [r.offset for r in d.get(TP0, [])]
+                trace.append((op, o0, delay, done_before, got))
+                if done_before:
+                    m.deliver(src, got, f"step {step} {op}")
+                else:
+                    # the call was still blocked when pause() was issued: nothing may be handed out
+                    src.check(not got, "getmany returned records from a partition that was paused while the call was blocked",
+                              got=got, delay=delay)
+            else:
+                o = seek_targets[src.choice(f"rs_to{step}", len(seek_targets))]
+                if not blocked.done():
+                    consumer.seek(TP0, o)
+                    m.pos, m.last_returned = o, None
+                    sought = True
+                else:
+                    sought = False
+                try:
+                    r = await asyncio.wait_for(blocked, timeout=3.0)
+                    got = [r.offset] if op == "race_seek" else [x.offset for x in r.get(TP0, [])]
+                except asyncio.TimeoutError:
+                    got = []
+                trace.append((op, delay, o if sought else None, got))
+                if op == "race_oor_seek" and not sought:
+                    # the out-of-range error was handled before the seek: position reset per policy
+                    m.pos = 0
+                m.deliver(src, got, f"step {step} {op} (seek must take effect for the very next record)")
         elif op == "pause":
             consumer.pause(TP0)
             m.paused = True
